@@ -2,12 +2,26 @@
 
 namespace dsplib {
 
+namespace {
+
+//phase transform weighting Y/|Y|, a bin with zero magnitude carries no phase information and is dropped
+arr_cmplx _phat(const arr_cmplx& Y) {
+    arr_cmplx r(Y.size());
+    for (int i = 0; i < Y.size(); ++i) {
+        const real_t a = abs(Y[i]);
+        r[i] = (a > 0) ? (Y[i] / a) : cmplx_t(0);
+    }
+    return r;
+}
+
+}   // namespace
+
 gccphat_res_t gccphat(const arr_real& sig, const arr_real& refsig, int fs) {
     const real_t ts = 1.0 / fs;
     auto X1 = fft(sig);
     auto X2 = conj(fft(refsig));
     auto Y = X1 * X2;
-    const auto R = ifft(Y / abs(Y));
+    const auto R = ifft(_phat(Y));
     const auto n = argmax(R);
     const int M = R.size();
     const int M2 = R.size() / 2;
@@ -36,7 +50,7 @@ gccphat_res_ch_t gccphat(const std::vector<arr_real>& sig, const arr_real& refsi
     for (size_t i = 0; i < sig.size(); i++) {
         auto X1 = fft(sig[i]);
         auto Y = X1 * X2;
-        const auto R = ifft(Y / abs(Y));
+        const auto R = ifft(_phat(Y));
         const auto n = argmax(R);
         auto peak = peakloc(R, n);
         real_t delay = 0;
